@@ -3,6 +3,7 @@ package rscp
 import (
 	"encoding/json"
 	"fmt"
+	"strconv"
 )
 
 // TypeFlagBit is the position of the bit indicating if the tag is a request or response
@@ -39,6 +40,11 @@ func (t *Tag) UnmarshalJSON(data []byte) error {
 	}
 
 	var err error
-	*t, err = TagString(s)
+	if *t, err = TagString(s); err != nil {
+		// unknown tags are written as their number in a string (see MarshalJSON)
+		if i, perr := strconv.ParseUint(s, 10, 32); perr == nil {
+			*t, err = Tag(i), nil
+		}
+	}
 	return err
 }
